@@ -46,14 +46,14 @@ theorem step_hist_grows {cfg : Cfg} {s s' : State} {t : Tid} {a : Act}
     · next tp refs path rest e =>
       cases h
       cases res with
-      | panic => exact ⟨[_], rfl⟩
+      | panic => exact ⟨[_], crash_hist ..⟩
       | err er => exact ⟨[_], rfl⟩
       | ok v =>
         cases refs with
         | nil => exact ⟨[_], rfl⟩
         | cons r0 rs => exact ⟨[_], rfl⟩
     · cases res with
-      | panic => cases h; exact ⟨[_], rfl⟩
+      | panic => cases h; exact ⟨[_], crash_hist ..⟩
       | err er => cases h; exact ⟨[_], retExc_hist ..⟩
       | ok v => cases h; exact ⟨[_], retExc_hist ..⟩
     · cases h
@@ -193,7 +193,7 @@ theorem tyOK_step {cfg : Cfg} {A B : Ty} {s s' : State} {t : Tid} {a : Act}
       cases h
       have hr : TyOK A B rest := by have := hs t; rw [e] at this; exact this.tail
       cases res with
-      | panic => exact key _ _ rfl hdead
+      | panic => exact key _ _ (crash_thr ..) hdead
       | err er => exact key _ _ (retDec_thr ..) (hr.deliver _)
       | ok v =>
         cases refs with
@@ -202,7 +202,7 @@ theorem tyOK_step {cfg : Cfg} {A B : Ty} {s s' : State} {t : Tid} {a : Act}
     · next tp path rest e =>
       have hr : TyOK A B rest := by have := hs t; rw [e] at this; exact this.tail
       cases res with
-      | panic => cases h; exact key _ _ rfl hdead
+      | panic => cases h; exact key _ _ (crash_thr ..) hdead
       | err er => cases h; exact key _ _ (retExc_thr ..) (hr.deliver _)
       | ok v => cases h; exact key _ _ (retExc_thr ..) (hr.deliver _)
     · cases h
@@ -313,7 +313,7 @@ theorem step_cache_changes {cfg : Cfg} (hf : cfg.fixed = true) {s s' : State} {t
       apply hk
       unfold fnReturn
       cases res with
-      | panic => rfl
+      | panic => simp
       | err er => simp
       | ok v =>
         cases refs with
